@@ -83,6 +83,13 @@ impl AdjustHeightsHeap {
     fn ensure_height_requirement(&mut self, original_child: &NodeRef, original_parent: &NodeRef, child: &NodeRef, parent: &NodeRef)
         requires walk_originals(original_child, original_parent),
     { unimplemented!() }
+    /// the same callee as reached from a method of the node `from` (rule R8 adds `self` as the first argument at
+    /// the call site): the edge it is asked to check must start at that node - `from` is the child, the node found
+    /// through its parent list / bind scope is the parent
+    #[verifier::external_body]
+    fn ensure_height_requirement__from(&mut self, from: &Node, original_child: &NodeRef, original_parent: &NodeRef, child: &NodeRef, parent: &NodeRef)
+        requires walk_originals(original_child, original_parent), **child == *from,
+    { unimplemented!() }
 }
 
 impl Node {
@@ -120,10 +127,11 @@ impl Node {
 //@ as: fn ensure_parent_height_requirements(&self, ahh: &mut AdjustHeightsHeap, original_child: &NodeRef, original_parent: &NodeRef)
 //@ attr: #[verifier::exec_allows_no_decreases_clause]
 //@ rule R5: `self.parents.borrow()` => `self.parents()` x1
+//@ rule R8 re: `(\w+)\s*\.\s*ensure_height_requirement\(` => `\1.ensure_height_requirement__from(self, ` x1
 //@ props: C11 C19
 //@ contract:
 //@|     requires forall|a: &NodeRef, b: &NodeRef| walk_originals(a, b) <==> (a == original_child && b == original_parent),
-//@|     // [every-parent-edge-is-checked-against-the-originals-of-this-walk-in-order]
+//@|     // [every-parent-edge-is-checked-against-the-originals-of-this-walk-in-order-with-this-node-as-the-child]
 //@ loop 0:
 //@|     invariant forall|a: &NodeRef, b: &NodeRef| walk_originals(a, b) <==> (a == original_child && b == original_parent),
 //@end
@@ -137,16 +145,32 @@ impl Node {
 //@ tracing: yes
 //@ rule R5 re: `if let Some\(Kind::BindLhsChange \{ bind, \.\. \}\) = self\.kind\(\)` => `if let Some(vx_rhs_nodes) = self.rhs_nodes_if_bind_lhs_change()` x1
 //@ rule R5: `let all = bind.all_nodes_created_on_rhs.borrow();` => `let all = vx_rhs_nodes;` x1
+//@ rule R8 re: `(\w+)\s*\.\s*ensure_height_requirement\(` => `\1.ensure_height_requirement__from(self, ` x1
 //@ props: C11 C19
 //@ contract:
 //@|     requires forall|a: &NodeRef, b: &NodeRef| walk_originals(a, b) <==> (a == oc && b == op),
-//@|     // [every-bind-scope-edge-is-checked-against-the-originals-of-this-walk-in-order]
+//@|     // [every-bind-scope-edge-is-checked-against-the-originals-of-this-walk-in-order-with-the-lhs-change-node-as-the-child]
 //@ loop 0:
 //@|     invariant forall|a: &NodeRef, b: &NodeRef| walk_originals(a, b) <==> (a == oc && b == op),
 //@end
 }
 
 impl AdjustHeightsHeap {
+//@extract loopbody AdjustHeightsHeap::adjust_heights/each
+//@ file: src/adjust_heights_heap.rs
+//@ impl: impl AdjustHeightsHeap
+//@ name: adjust_heights
+//@ loop_containing: `ensure_parent_height_requirements`
+//@ as: fn adjust_heights__each(&mut self, vx_item: NodeRef, rch: &RecomputeHeap, original_child: NodeRef, original_parent: NodeRef)
+//@ props: C11 C19
+//@ must_call the-parent-edges-of-every-popped-node-are-checked: `\.\s*ensure_parent_height_requirements\(`
+//@ must_call the-bind-scope-edges-of-every-popped-node-are-checked: `\.\s*adjust_heights_bind_lhs_change\(`
+//@ must_call a-popped-node-that-is-scheduled-is-moved-to-the-bucket-of-its-new-height: `\.\s*increase_height\(` when `node_in_heap(&*vx_item)`
+//@ never_call a-popped-node-that-is-not-scheduled-is-not-touched-in-the-scheduler: `\.\s*increase_height\(` when `!node_in_heap(&*vx_item)`
+//@ contract:
+//@|     requires forall|a: &NodeRef, b: &NodeRef| walk_originals(a, b) <==> (*a == original_child && *b == original_parent),
+//@end
+
 //@extract fn AdjustHeightsHeap::adjust_heights
 //@ file: src/adjust_heights_heap.rs
 //@ impl: impl AdjustHeightsHeap
